@@ -329,7 +329,7 @@ func init() {
 	})
 	// reflect.Type methods (invoked through interface)
 	R("reflect.Type.Kind", func(e *Engine, fr *frame, a []Value) Value { return BV(64, int64(kindOf(a[0].(RType).T))) })
-	R("reflect.Type.String", func(e *Engine, fr *frame, a []Value) Value { return a[0].(RType).T.String() })
+	R("reflect.Type.String", func(e *Engine, fr *frame, a []Value) Value { return reflectTypeString(a[0].(RType).T) })
 	R("reflect.Type.Elem", func(e *Engine, fr *frame, a []Value) Value {
 		switch u := a[0].(RType).T.Underlying().(type) {
 		case *types.Pointer:
@@ -437,3 +437,8 @@ func init() {
 }
 
 var _ = fmt.Sprint
+
+// reflectTypeString mimics reflect.Type.String: named types are qualified by package *name*, not path
+func reflectTypeString(t types.Type) string {
+	return types.TypeString(t, func(p *types.Package) string { return p.Name() })
+}
